@@ -558,8 +558,18 @@ class Src(str):
                 out = re.sub(rf'(?<![.\w]){re.escape(k)}\b', env[k], out)
             yield out, env
 
+    def _find_bounded(self, snippet, start=0):
+        """like str.find, but a snippet that begins with an identifier character must not continue an identifier of the text
+        (`data = f()` does not occur in `self._data = f()`); a leading dot is fine (`_sched_add(` occurs in `self._sched_add(`)"""
+        if not snippet or not (snippet[0].isalnum() or snippet[0] == '_'):
+            return str.find(self, snippet, start)
+        i = str.find(self, snippet, start)
+        while i > 0 and (self[i - 1].isalnum() or self[i - 1] == '_'):
+            i = str.find(self, snippet, i + 1)
+        return i
+
     def __contains__(self, snippet):
-        if str.__contains__(self, snippet):
+        if self._find_bounded(snippet) >= 0:
             return True
         for v, env in self._variants(snippet) or ():
             if str.__contains__(self, v):
@@ -568,7 +578,7 @@ class Src(str):
         return False
 
     def find(self, snippet, *a):
-        i = str.find(self, snippet, *a)
+        i = self._find_bounded(snippet, *a[:1]) if len(a) <= 1 else str.find(self, snippet, *a)
         if i >= 0:
             return i
         for v, env in self._variants(snippet) or ():
